@@ -426,7 +426,75 @@ class Outer(Base if False else object):
             """
             return q
 ''')
-FIXTURES = (FIXTURE, FIXTURE2)
+FIXTURE3 = ('''import os
+
+
+def goog(alpha, beta=3, *, gamma="g"):
+    """
+    Goog doc.
+
+    Args:
+      alpha (int): the alpha
+      beta (int): the beta. Defaults to 3
+      gamma (str): the gamma
+
+    Returns:
+      bool: whether
+    """
+    return bool(alpha)  # tail
+
+
+def nump(alpha, beta=2.5):
+    """
+    Nump doc.
+
+    Parameters
+    ----------
+    alpha : int
+        the alpha
+    beta : float
+        the beta
+
+    Returns
+    -------
+    float
+        the sum
+    """
+    total = alpha + beta
+    return total
+
+
+def bare(x, y=os.sep):
+    return x
+
+
+class Holder(object):
+    """
+    Holder doc.
+
+    Attributes:
+      size (int): the size
+    """
+
+    size: int = 4
+
+    def meth(self, key, default=None):
+        """
+        Meth doc.
+
+        Args:
+          key (str): the key
+          default (Optional[str]): the default
+        """
+        if key:
+            return key
+        return default
+
+    async def ameth(self, n=1):
+        # leading comment, no docstring
+        return n
+''')
+FIXTURES = (FIXTURE, FIXTURE2, FIXTURE3)
 
 
 def _comments(text):
@@ -434,6 +502,30 @@ def _comments(text):
     import tokenize
 
     return [t.string for t in tokenize.generate_tokens(io.StringIO(text).readline) if t.type == tokenize.COMMENT]
+
+
+def other_lines(text):
+    """lines that are neither part of a definition header, a docstring, nor an annotated assignment"""
+    mod = ast.parse(text)
+    skip = set()
+    def docnode(n):
+        b = getattr(n, "body", None)
+        if b and isinstance(b[0], ast.Expr) and isinstance(getattr(b[0], "value", None), ast.Constant) and isinstance(b[0].value.value, str):
+            return b[0]
+    for n in ast.walk(mod):
+        if isinstance(n, (ast.FunctionDef, ast.AsyncFunctionDef, ast.ClassDef)):
+            first = n.body[0]
+            for l in range(n.lineno, max(n.lineno, first.lineno - 1) + 1):
+                skip.add(l)
+        if isinstance(n, (ast.FunctionDef, ast.AsyncFunctionDef, ast.ClassDef, ast.Module)):
+            d = docnode(n)
+            if d is not None:
+                for l in range(d.lineno, d.end_lineno + 1):
+                    skip.add(l)
+        if isinstance(n, ast.AnnAssign) or (isinstance(n, ast.Assign) and n.type_comment):
+            for l in range(n.lineno, n.end_lineno + 1):
+                skip.add(l)
+    return [ln for i, ln in enumerate(text.split("\n"), 1) if i not in skip]
 
 
 def _erase(mod):
@@ -468,7 +560,7 @@ def program_unchanged(style, type_annotations, no_word_wrap, fx=0):
     for k in (1, 2):
         if style == k:
             fmt = STYLES[k]
-    fixture = FIXTURES[1] if fx == 1 else FIXTURES[0]
+    fixture = FIXTURES[2] if fx == 2 else (FIXTURES[1] if fx == 1 else FIXTURES[0])
     _N[0] += 1
     filename = os.path.join(_ROOT, "p%d.py" % _N[0])
     with open(filename, "wt") as f:
@@ -493,6 +585,10 @@ def program_unchanged(style, type_annotations, no_word_wrap, fx=0):
     if _erase(mod) != _erase(ast.parse(fixture)):
         heads = [l for l in after.splitlines() if l.lstrip().startswith(("def ", "class ", "@"))]
         return "the program changed (AST differs once docstrings and annotations are erased); headers now: %r" % (heads,)
+    la, lb = other_lines(fixture), other_lines(after)
+    if la != lb:
+        diff = [(x, y) for x, y in zip(la, lb) if x != y][:2] or [("<%d lines>" % len(la), "<%d lines>" % len(lb))]
+        return "a line that is neither a definition header, a docstring nor an annotated assignment is not byte-identical: %r" % (diff,)
     if _comments(after) != _comments(fixture):
         return "comments changed: %r -> %r" % (_comments(fixture), _comments(after))
     return ""
@@ -506,9 +602,18 @@ ob("C07", "K6.program_unchanged", {"style": R(0, 2), "type_annotations": BOOL, "
           "cdd.shared.ast_cst_utils.maybe_replace_doc_str_in_function_or_class"],
    bound="the whole doctrans() on a scratch fixture module (function with defaults/*args/kw-only/**kwargs and a trailing comment, function with annotated keyword-only "
          "parameters, class with attribute, decorated method with a nested function) x target style x --type-annotations (solver-enumerated; word-wrap off here, on in the thorough twin): valid Python, "
-         "AST identical once docstrings and annotations are erased, comments kept")(program_unchanged)
-ob("C07", "K6.program_unchanged.fx2", {"style": R(0, 2), "type_annotations": BOOL, "no_word_wrap": BOOL, "fx": R(1, 1)}, T=1800, tpath=200,
+         "AST identical once docstrings and annotations are erased, comment tokens kept in order, every line outside definition headers / docstrings / annotated assignments byte-identical")(program_unchanged)
+ob("C07", "K6.program_unchanged.fx2.quick", {"style": R(0, 2), "type_annotations": R(1, 1), "no_word_wrap": R(1, 1), "fx": R(1, 1)}, T=900, tpath=200,
+   funcs=["cdd.compound.doctrans.doctrans"], bound="K6.program_unchanged.fx2 restricted to --type-annotations with word-wrap off (3 target styles)")(program_unchanged)
+ob("C07", "K6.program_unchanged.fx2", {"style": R(0, 2), "type_annotations": BOOL, "no_word_wrap": BOOL, "fx": R(1, 1)}, T=1800, tpath=200, tier="thorough",
    funcs=["cdd.compound.doctrans.doctrans"],
    bound="the whole doctrans() on a second scratch fixture (decorated and undecorated functions whose return annotation contains parentheses, async function with keyword-only "
          "parameters, multi-line header, trailing comment, class with computed base, nested class with an annotated method) x target style x --type-annotations x word-wrap: "
          "valid Python, AST identical once docstrings and annotations are erased, same comment tokens in the same order")(program_unchanged)
+ob("C07", "K6.program_unchanged.fx3.quick", {"style": R(0, 2), "type_annotations": R(1, 1), "no_word_wrap": R(1, 1), "fx": R(2, 2)}, T=900, tpath=200,
+   funcs=["cdd.compound.doctrans.doctrans"], bound="K6.program_unchanged.fx3 restricted to --type-annotations with word-wrap off (3 target styles)")(program_unchanged)
+ob("C07", "K6.program_unchanged.fx3", {"style": R(0, 2), "type_annotations": BOOL, "no_word_wrap": BOOL, "fx": R(2, 2)}, T=1800, tpath=200, tier="thorough",
+   funcs=["cdd.compound.doctrans.doctrans"],
+   bound="the whole doctrans() on a third scratch fixture whose SOURCE docstrings are Google and NumPy style (keyword-only parameter, 'Defaults to' prose, Returns sections), a function "
+         "without docstring whose default is an attribute expression, a class documented with an Attributes section, a method, and an async method without docstring x target style x "
+         "--type-annotations x word-wrap: valid Python, AST identical once docstrings and annotations are erased, comments and other lines byte-identical")(program_unchanged)
